@@ -7,7 +7,7 @@ FAMILIES = {
     'C01': ['stream', 'modes', 'regex'], 'C02': ['stream', 'lookahead', 'la_compete', 'finite', 'regex'], 'C03': ['finite', 'regex', 'stream', 'lookahead'],
     'C04': ['lookahead', 'la_compete', 'offset', 'peek'], 'C05': ['lookahead', 'la_compete'], 'C06': ['modes', 'isolation'],
     'C07': ['stream', 'lookahead', 'offset', 'la_compete'], 'C13': ['cache'], 'C08': ['classes', 'named_classes'], 'C15': ['unsupported'], 'C09': ['positions'],
-    'C10': ['offset', 'peek'], 'C11': ['peek', 'modes', 'offset'], 'C12': ['isolation', 'modes'],
+    'C10': ['offset', 'peek'], 'C17': ['large'], 'C11': ['peek', 'modes', 'offset'], 'C12': ['isolation', 'modes'],
 }
 
 
@@ -50,7 +50,7 @@ def search(prop, seed, tier, repo, budget_ms=None):
     summary = dict(families=fams, budget_ms_per_family=budget, runs=[],
                    bounds='<=4 modes, <=5 patterns per mode from a pool of 46, lookaheads from a pool of 18 (both polarities), 4 token-type numberings, inputs <=16 chars over {a,b,c,e-acute,euro,emoji,newline,x}, <=20 operations; class expressions to nesting depth 2; planted unsupported constructs to depth 3')
     for f in fams:
-        r = subprocess.run([exe, f, str(seed or 1), str(budget)], stdout=subprocess.PIPE, stderr=subprocess.PIPE, text=True, timeout=budget / 1000 + 120)
+        r = subprocess.run([exe, f, str(seed or 1), str(budget)], stdout=subprocess.PIPE, stderr=subprocess.PIPE, text=True, timeout=budget / 1000 + 900)
         try:
             js = json.loads(r.stdout.strip().split('\n')[-1])
         except Exception:
